@@ -17,7 +17,7 @@ pub fn classify_component(c: &str) -> Class<u32> {
         None => {
             // exotic but unambiguous spellings: sign '+', leading zeros, surrounding blanks, 0x hex
             let t = body.trim(); let t = t.strip_prefix('+').unwrap_or(t);
-            let v = if let Some(h) = t.strip_prefix("0x") { u128::from_str_radix(h, 16).ok() } else if !t.is_empty() && t.bytes().all(|b| b.is_ascii_digit()) { if t.len() > 30 { Some(u128::MAX) } else { t.parse::<u128>().ok() } } else { None };
+            let v = if let Some(h) = t.strip_prefix("0x") { u128::from_str_radix(h, 16).ok() } else if !t.is_empty() && t.bytes().all(|b| b.is_ascii_digit()) { let z = t.trim_start_matches('0'); if z.len() > 30 { Some(u128::MAX) } else if z.is_empty() { Some(0) } else { z.parse::<u128>().ok() } } else { None };
             match v { Some(v) => mk(v).and_then(Class::Unc), None => Class::Reject }
         }
     }
